@@ -35,7 +35,7 @@ ASSUMPTIONS = [
     "the slots are read through their name-mangled class attributes",
 ]
 TYPECHECK_OK = True  # every generated value conforms to its annotation: some shards run with RUNTIME_TYPE_CHECK on
-MUST_SEE = ["origin_object_made_of_placeholders", "source_dump_loaded_before_calls", "tagless_payload_recreated", "flag_only_dialect", "equal_but_distinct_source_objects", "faults_outside_the_exception_tree", "indented_json_with_options", "option_spelled_false", "raised_with_options", "failpoints_fired", "failpoint_nested", "default_after_fault", "bomb_positions", "corrupt_payloads", "option_subsets", "mappings_walked", "explorer_children_checked", "index_sources_checked", "deser_with_options", "repo_tests_slot_checks", "shared_options_object"]
+MUST_SEE = ["falsy_origin_object", "origin_object_made_of_placeholders", "source_dump_loaded_before_calls", "tagless_payload_recreated", "flag_only_dialect", "equal_but_distinct_source_objects", "faults_outside_the_exception_tree", "indented_json_with_options", "option_spelled_false", "raised_with_options", "failpoints_fired", "failpoint_nested", "default_after_fault", "bomb_positions", "corrupt_payloads", "option_subsets", "mappings_walked", "explorer_children_checked", "index_sources_checked", "deser_with_options", "repo_tests_slot_checks", "shared_options_object"]
 CONFIG = {
     "quick": {"shards": 16, "trees": 16, "subsets": 14, "failpoint_trees": 1, "watchdog_s": 600},
     "thorough": {"shards": 32, "trees": 40, "subsets": 48, "failpoint_trees": 4, "watchdog_s": 3400},
@@ -282,6 +282,10 @@ def run_shard(ctx):
         rng = ctx.rng(case)
         tg = G.TreeGen(rng, U, max_nodes=rng.choice([4, 9]), max_depth=4, max_width=3, share=0.0, twin=0.1, p_origin=0.7, hostile=0.05, exclude=(f"{P}Nested", f"{P}Meta", f"{P}Typed"))  # no (faithful) wire form: Any-typed nested tuples / value objects, a lossy field serializer
         s = tg.tree()
+        if case % 5 == 3:
+            # an origin of a user's own class that is falsy (an empty span)
+            s.origin = ("span", case % O.N_SOURCES, 1, 1) if len(O.TEXTS[case % O.N_SOURCES]) > 1 else ("span", 0, 1, 1)
+            ctx.count("falsy_origin_object")
         if case % 5 == 2:
             # an origin object made of the two placeholders (not the NoOrigin singleton): an object like any other
             s.origin = ("nsnp",)
